@@ -309,7 +309,7 @@ def gen_layout(tier, R):
         out.append(text_case('stext', t1, ex))
         out.append("(lay _ (a " + " ".join(str(ord(c)) for c in t1) + ") (b " + " ".join(str(ord(c)) for c in t2) + "))")
     # malformed stream: both sides must reject with the same error
-    for bad in ["'abc", "'", "a ' b", "$", "a $ b", "1 ? 2", "\\", "{", "{ {", "//", "", "   ", "#", "a ~ b", "1..2", ".", "..", "1.2.3", "٣", "x ٣", "١٢٣", "²", "½", "a ½", " ", "a b", "　"]:
+    for bad in ["1 +\x0c 2", "1\x0b+ 2", "a\xa0+ b", "a\u2028b", "1 \x85 2", "\ufeff1", "'abc", "'", "a ' b", "$", "a $ b", "1 ? 2", "\\", "{", "{ {", "//", "", "   ", "#", "a ~ b", "1..2", ".", "..", "1.2.3", "٣", "x ٣", "١٢٣", "²", "½", "a ½", " ", "a b", "　"]:
         out.append(text_case('scan', bad))
         out.append(text_case('text', bad))
     # the model's character classification equals Rust's char::is_alphabetic / is_numeric on the code space
